@@ -21,6 +21,7 @@ func ZZ_C20() {
 	number := vr.U64()
 	vr.Assume(number > 0 && number < 1<<62)
 	oldExt := zzH()
+	vr.Assume(oldExt.HasValue() && oldExt != N && oldExt != E)
 	cache := &CacheRound{NodeId: N, Number: number, References: &common.RoundLink{Self: zzH(), External: oldExt}, index: newRoundIndexCache()}
 	for i := vr.Choose(1, 2); i > 0; i-- {
 		s := &common.Snapshot{Version: common.SnapshotVersionCommonEncoding, NodeId: N, RoundNumber: number, Timestamp: vr.U64(), Hash: zzH()}
@@ -34,8 +35,18 @@ func ZZ_C20() {
 	prevFinal := &FinalRound{NodeId: N, Number: number - 1, Start: vr.U64(), End: vr.U64(), Hash: cache.References.Self}
 	chain.State = &ChainState{CacheRound: cache, FinalRound: prevFinal, RoundHistory: []*FinalRound{prevFinal}, RoundLinks: map[crypto.Hash]uint64{}}
 	vr.Assert(store.ZZWriteRound(N, &common.Round{Hash: N, NodeId: N, Number: number, References: cache.References}) == nil, "setup-head")
+	// stored link N->E and its in-memory mirror agree (representation invariant)
+	link := vr.U64()
+	if vr.Bool() {
+		vr.Assert(store.ZZWriteLink(N, E, link) == nil, "setup-link")
+		chain.State.RoundLinks[E] = link
+	} else {
+		link = 0
+	}
+
 	// the head's current external reference exists (it was validated when the head was started)
-	vr.Assert(store.ZZWriteRound(oldExt, &common.Round{Hash: oldExt, NodeId: E, Number: 0, Timestamp: 1}) == nil, "setup-old-external")
+	// and the stored link to its node is its round number (written in the same transaction)
+	vr.Assert(store.ZZWriteRound(oldExt, &common.Round{Hash: oldExt, NodeId: E, Number: link, Timestamp: 1}) == nil, "setup-old-external")
 
 	// the proposed external round: absent, or a stored final round of node X (X may be N itself)
 	ext := zzH()
@@ -50,19 +61,13 @@ func ZZ_C20() {
 	if extPresent {
 		vr.Assert(store.ZZWriteRound(ext, &common.Round{Hash: ext, NodeId: X, Number: extNumber, Timestamp: vr.U64()}) == nil, "setup-external")
 	}
-	// stored link N->E and its in-memory mirror agree (representation invariant)
-	link := vr.U64()
-	if vr.Bool() {
-		vr.Assert(store.ZZWriteLink(N, E, link) == nil, "setup-link")
-		chain.State.RoundLinks[E] = link
-	} else {
-		link = 0
-	}
-
 	final0 := cache.asFinal()
+	// the closing round's hash is a fresh BLAKE3 value: non-zero and not the key of an existing round record
+	vr.Assume(final0.Hash.HasValue() && final0.Hash != N && final0.Hash != oldExt && final0.Hash != ext)
 	refs := &common.RoundLink{Self: final0.Hash, External: ext}
 	if vr.Bool() {
 		refs.Self = zzH() // a proposal that does not commit to this chain's previous final round
+		vr.Assume(refs.Self != final0.Hash)
 	}
 	ts, finalized := vr.U64(), true
 	before := store.ZZDump()
@@ -70,6 +75,9 @@ func ZZ_C20() {
 	nc, nf, dummy, err := chain.startNewRoundAndPersist(cache, refs, ts, finalized)
 	after := store.ZZDump()
 	if err != nil || nf == nil {
+		if err != nil && vr.Replaying() {
+			println("ZZ-NOTE rejected:", err.Error())
+		}
 		vr.Cover("rejected")
 		vr.Assert(storage.ZZSameDump(before, after), "rejected-transition-leaves-the-store-unchanged")
 		vr.Assert(chain.State.CacheRound == cache && chain.State.FinalRound == prevFinal && chain.State.RoundLinks[E] == linksBefore, "rejected-transition-leaves-chain-state-unchanged")
